@@ -469,6 +469,27 @@ def fresh_process_runs(ctx, progs, n):
     return outs
 
 
+def borrowed_corpus(ctx):
+    import random
+
+    import inst_gen
+    import lin_ast
+    import lin_gen
+    import sem_gen
+
+    out = []
+    inst = inst_gen.programs(True)
+    for j in inst[:: ctx.pick(5, 1)]:
+        out.append(("gen-" + j["id"], j["src"] + "\nf = main\n"))
+    for c in sem_gen.programs(ctx.seed + 17, ctx.pick(25, 300), effects=0.3):
+        out.append(("gen-sem-" + c["id"], c["src"] + "\nf = main\n"))
+    rng = random.Random(ctx.seed * 7 + 3)
+    for k in range(ctx.pick(30, 400)):
+        p = lin_gen.gen_program(rng, k, rich=True, noise=0.0, nofix=rng.choice([0.0, 0.0, 0.2]))
+        out.append((f"gen-lin-{k}", lin_ast.render(p)[0] + "\nf = main\n"))
+    return out
+
+
 def run(ctx):
     import df_corpus
 
@@ -523,15 +544,21 @@ def run(ctx):
                           f"other={json.dumps({k: v for k, v in r.items() if k != 'log'})[:300]}",
                           {"src": progs[pi][1], "schedule": vec})
     # ---- (2) fresh processes, different hash seeds and heap layouts ------------------------------
-    outs = fresh_process_runs(ctx, progs, ctx.pick(6, 24))
-    ctx.log("fresh processes done")
-    for n, _ in progs:
+    # the fresh-process part also compiles programs of the other checks' generators (classical control flow,
+    # linear programs in the rich rendering, generic instantiations): hash-ordered iteration may hide anywhere
+    fresh_progs = progs + borrowed_corpus(ctx)
+    outs = fresh_process_runs(ctx, fresh_progs, ctx.pick(6, 24))
+    ctx.log(f"fresh processes done ({len(fresh_progs)} programs x {ctx.pick(6, 24)} interpreter runs)")
+    fresh_status = collections.Counter((outs[0].get(n) or ["missing"])[0] for n, _ in fresh_progs)
+    if fresh_status.get("load", 0) + fresh_status.get("missing", 0) > 0.1 * len(fresh_progs):
+        raise lib.Machinery(f"fresh-process corpus mostly fails to load: {dict(fresh_status)}")
+    for n, _ in fresh_progs:
         vals = {json.dumps(o.get(n)) for o in outs}
         if len(vals) > 1:
             ctx.violation(f"hashseed-dependent:{n if n in dict(EXTRA) or not n.startswith('gen') else 'generated-program'}",
                           f"program `{n}` gives {len(vals)} different outcomes across interpreter runs with different "
                           f"PYTHONHASHSEED/heap layout: {sorted(vals)[0][:300]} ... {sorted(vals)[1][:300]}",
-                          {"src": dict(progs)[n]})
+                          {"src": dict(fresh_progs)[n]})
     # native fork (hooks on, declining scheduler) must agree with hooks-off fresh processes
     unstable = {n for n, _ in progs if len({json.dumps(o.get(n)) for o in outs}) > 1}
     for (n, _), r in zip(progs, native):
@@ -578,7 +605,8 @@ def run(ctx):
                 "points replayed in a forked pristine compiler; plus fresh processes with distinct PYTHONHASHSEED and heap noise",
         "samples": [{"program": progs[0][0], "choice_points": native[0]["log"][:6], "schedules": scheds.get(1, [])[:3]}],
         "choice_sites_with_real_choice": dict(sites_with_choice), "outputs_differing": differing,
-        "fresh_processes": len(outs), "real_cfgs_with_schedule_dependent_evidence_in_model": evdep,
+        "fresh_processes": len(outs), "fresh_process_programs": len(fresh_progs), "fresh_process_outcomes": dict(fresh_status),
+        "real_cfgs_with_schedule_dependent_evidence_in_model": evdep,
         "real_cfgs_explored_for_evidence": len(graphs), "exhaustive": False,
     })
     ctx.assumptions += ["the audit list of hash-ordered choice points (hooks) is complete; part (2) does not depend on it",
